@@ -1312,6 +1312,10 @@ def run(ck):
     check_free_first(ck, prog)
     check_pending(ck, prog)
     check_kept(ck, prog)
+    # what the memory usage functions describe is what a RE-USED coder holds as well: a cached buffer whose size key differs
+    # from the new size is replaced, not kept (rule shared with C10)
+    from . import C10
+    C10.check_sizekey(ck, prog, rule="C09-SIZEKEY")
     check_clamp(ck, prog)
     check_saturate(ck, prog)
     check_usage_not_remaining(ck, prog)
